@@ -114,6 +114,10 @@ def monitor(case, il, sl):
         t = o.split()
         if any("ABORT" in l or "<no output>" in l for l in g):
             return ("`%s` -> %s" % (o[:100], g[-1]), "c12-crash")
+        if t[0] in ("close-chan", "drop-chan"):
+            closes = [l for l in g[1:] if l.startswith("sent %s send method %s 20 40 " % (t[1], t[1]))]
+            if len(closes) > 1:
+                return ("`%s` put %d Channel.Close methods on the wire (a failed close followed by the drop of the channel): exactly one is due" % (o, len(closes)), "c12-double-close")
         if t[0] == "dropio":
             dead = True
         elif t[0] == "mkdelivery":
@@ -229,5 +233,7 @@ def gen(tier, seed):
 
 
 def suites(tier, seed):
-    return [Suite("api", "api", lambda: gen(tier, seed), monitor=monitor, nontrivial=nontrivial, canon=apigen.canon, shards=4, timeout=60,
+    return [Suite("highest-channel-ids", "machine", lambda: [c for c in __import__("props.c10", fromlist=["x"]).gen_loop(tier, seed) if c.cid.startswith("hi")], monitor=__import__("props.c10", fromlist=["x"]).loop_monitor, nontrivial=lambda c, il: True, canon=__import__("machgen").canon_nondet,
+                  rule="methods on channels 65534 and 65535 (channel_max 65535) pass through the real I/O loop onto the wire like on any other channel"),
+            Suite("api", "api", lambda: gen(tier, seed), monitor=monitor, nontrivial=nontrivial, canon=apigen.canon, shards=4, timeout=60,
                   rule="directed cross-channel ack/nack/reject cases for every acknowledging entry point (Delivery::* and Consumer::*) + random sessions over 36 kinds of public operations on 1-3 channels (Channel, Queue, Exchange, Consumer, Delivery, Connection), every boolean option drawn independently, strings incl. empty / 255 bytes / multibyte UTF-8, nested field tables, all 14 message properties, numeric extremes; synchronous calls answered by pre-loaded replies (4% of a wrong type), some after the I/O side is gone or with an error queued")]
